@@ -493,8 +493,40 @@ func ruleOptionalTails(c *Ctx, x *extractor, scope []*ssa.Function) {
 			transparent[f] = true
 		}
 	}
+	// commands added after the inventory was written are outside it: a tolerated end in code
+	// that only such commands reach cannot have made a required argument of an inventoried
+	// command optional
+	table, _ := loadCommandTable(verifRoot)
+	oracleReach := map[*ssa.Function]bool{}
+	if execs, _ := c.P.executors(); table != nil {
+		var roots []*ssa.Function
+		for _, e := range execs {
+			if _, inTable := table[e.Name]; inTable {
+				roots = append(roots, e.Fn)
+			}
+		}
+		for f := range c.P.repoReach(roots, func(g *ssa.Function) bool { return inScope[g] }) {
+			oracleReach[f] = true
+		}
+		// closures nested in reached functions
+		for _, f := range scope {
+			for p := f.Parent(); p != nil; p = p.Parent() {
+				if oracleReach[p] && !strings.HasPrefix(roleKey(c.P, f), "executor:") {
+					oracleReach[f] = true
+				}
+			}
+		}
+	}
+	outside := 0
 	for _, f := range scope {
 		if transparent[f] {
+			continue
+		}
+		if table != nil && !oracleReach[f] {
+			if k := len(local(f)); k > 0 {
+				outside += k
+				c.ok(rid, roleKey(c.P, f)+"/not-in-inventory-scope", c.P.pos(f.Pos()), fmt.Sprintf("%d tolerated-end point(s) in code reached only by commands added after the inventory was written: not compared", k))
+			}
 			continue
 		}
 		pts := local(f)
@@ -524,6 +556,7 @@ func ruleOptionalTails(c *Ctx, x *extractor, scope []*ssa.Function) {
 		}
 	}
 	c.count("optional-tail-points", n)
+	c.count("optional-tail-points-outside-inventory", outside)
 	c.floor("optional-tail-points", 8)
 }
 
